@@ -280,12 +280,14 @@ def _step_body(v1, v2, v3, ki, k2, x, y):
     elif op in ("or", "ior", "ror"):
         srck = P.get("src", 0)
         om = Model()
-        om.add(key, x)
-        if key2.lower() != key.lower():
-            om.add(key2, y)
-        if srck == 0:
+        if srck < 3:
+            om.add(key, x)
+            if key2.lower() != key.lower():
+                om.add(key2, y)
+        # srck 3..5: EMPTY sources ({} / [] / empty HTTPHeaderDict): the result must still be a fresh, independent object
+        if srck in (0, 3):
             other = dict(om.lines())
-        elif srck == 1:
+        elif srck in (1, 4):
             other = list(om.lines())
         else:
             other = HTTPHeaderDict()
@@ -301,6 +303,8 @@ def _step_body(v1, v2, v3, ki, k2, x, y):
             if observe_equal(r, rm):
                 return _fail("| result: %s" % observe_equal(r, rm))
             # independence
+            if r is d:
+                return _fail("| returned its own left operand")
             r.add(key, "zz")
             if observe_equal(d, m):
                 return _fail("| result aliases its operand")
@@ -309,10 +313,10 @@ def _step_body(v1, v2, v3, ki, k2, x, y):
             d |= other
             for a, b in om.lines():
                 m.add(a, b)
-            if srck == 2:
+            if srck in (2, 5):
                 other.add(key, "zz")      # the source must stay independent
         else:
-            if srck == 2:
+            if srck in (2, 5):
                 return True               # HTTPHeaderDict | HTTPHeaderDict is __or__, not __ror__
             r = other | d
             rm = om.copy()
@@ -438,7 +442,9 @@ def JOBS(tier):
     for si in range(len(SHAPES)):
         for oi, op in enumerate(OPS):
             if op in ("or", "ior", "ror"):
-                for src in (0, 1, 2):
+                for src in (0, 1, 2, 3, 4, 5):
+                    if src >= 3 and si not in (1, 4):
+                        continue
                     jobs.append({"func": "c16_step", "part": {"shape": si, "op": oi, "src": src}, "timeout": t})
             else:
                 jobs.append({"func": "c16_step", "part": {"shape": si, "op": oi}, "timeout": t})
@@ -448,7 +454,7 @@ def JOBS(tier):
 
 
 EVIDENCE = {
-    "bounds": {"quick": "one operation (22 kinds, 3 source container types for |,|=,reflected |) from 7 pre-state shapes "
+    "bounds": {"quick": "one operation (22 kinds, 3 source container types, empty and non-empty, for |,|=,reflected |) from 7 pre-state shapes "
                         "(<=2 names, <=3 values); operated-on names by symbolic index into an 8-name casing pool; ALL values "
                         "unbounded symbolic strings; sequences of 2 ops from the empty dict",
                "thorough": "same with sequences of 3 and 6x budget"},
